@@ -443,7 +443,7 @@ _ADDED9 = {
 # Clauses added after the tenth round of independently seeded changes and the fifth refactoring campaign.
 _ADDED10 = {
     "C01": " (PL2) a count written in front of a loop over S is len(S) (the dimension count of a dynamic array excludes the element's own dimensions).",
-    "C02": " (O4) a printed C++ to_json that adds members to `j` conditionally first gives `j` its container kind.",
+    "C02": " (O4) a printed C++ to_json that adds members to `j` conditionally first gives `j` its container kind; (NL2) see C17.",
     "C03": " (PL2) see C01; (O4) see C02; (SR4, NL1) registered here too.",
     "C04": " (V3, V4) the rewriter's case and child coverage registered here too (a node kind treated as a leaf keeps its comments in the embedded schema).",
     "C05": " (V5) registered here too for the schema walk; (BN2) see C06; (RB1) in writeProtocolStep the conversion of an item read singly from a stream is printed only inside "
@@ -462,7 +462,7 @@ _ADDED10 = {
     "C18": " (I4) see C11.",
     "C20": " (T12) in generateImpl every return in front of the last back end's Generate call is the return of an error.",
     "C16": " (RB1) see C05.",
-    "C17": " (RB1) see C05.",
+    "C17": " (RB1) see C05; (NL1) registered here too; (NL2, when nlohmann/json.hpp is installed) ReadProtocolValue decides the presence of a step by key lookup, never by is_null() or operator[] — a null item is a value.",
 }
 for _src in (_ADDED, _ADDED3, _ADDED4, _ADDED5, _ADDED6, _ADDED7, _ADDED8, _ADDED9, _ADDED10):
     for _k, _v in _src.items():
